@@ -143,10 +143,24 @@ def judge(ctx, sc, rr, cancelled=False):
     if res.get("stuck") or not res.get("server_ret"):
         ctx.violation(dict(kind="server_stuck", blocked="; ".join(sorted(set(
             d.split(" ")[0].split(":")[0] + " " + d.split("[")[1].split("]")[0] for d in res.get("stuck_detail", []) if "[" in d)))),
-            dict(scenario=sc, stuck_detail=res.get("stuck_detail"), received=res.get("received"), last_events=res["events"][-12:]))
+            dict(scenario=sc, stuck_detail=res.get("stuck_detail"), received=res.get("received"), last_events=(res.get("events") or [])[-12:]))
         return res
     # every accepted work-start is answered by exactly one terminal message; a work-start that could not be
     # accepted because its payload is undecodable is answered by a step-fatal error carrying its run ID
+    # "problems are reported as error messages and returned ServerErrors": what RunATPServer returns tells the same
+    # story as what it wrote - every error message on the wire is one of the returned ServerErrors, in the same order,
+    # with the same run ID, flags and text (the returned list may have more: errors it could not send)
+    wire, ret = res.get("wire_err_list") or [], res.get("server_err_list") or []
+    j = 0
+    for wmsg in wire:
+        while j < len(ret) and ret[j] != wmsg:
+            j += 1
+        if j == len(ret):
+            ctx.violation(dict(kind="returned_errors_differ_from_reported", reported=min(len(wire), 4), returned=min(len(ret), 4),
+                               distinct_returned=min(len(set(ret)), 4)),
+                          dict(scenario=sc, reported_on_the_wire=wire, returned=ret))
+            break
+        j += 1
     acc, term = res.get("accepted") or {}, res.get("terminals") or {}
     if cancelled:
         # after the cancellation errors are no longer forwarded: at most one terminal message per accepted work-start,
@@ -250,6 +264,15 @@ def run(ctx):
             for name, script in (("ws_sig_fin", [ws, sg, fin, cd]), ("ws_fin_sig", [ws, fin, sg, cd]), ("sig_ws_fin", [sg, ws, fin, cd]),
                                  ("ws_sig_eof_fin", [ws, sg, dict(op="eof"), fin]), ("ws_sig_sig", [ws, sg, dict(sg), fin, cd])):
                 scen.append(dict(id="pair/%d-%s-%s" % (wi, sv or "valid", name), mode="server", cap=0, script=script))
+    # a step whose step-data initializer panics for the first run that uses it: that run is answered by a step-fatal
+    # error like any other panic, and the step stays usable - later runs of the same step are started and answered
+    for name, tail in (("cd", [dict(op="send", kind="cd", run="", variant="", beh="ok")]), ("eof", [dict(op="eof")])):
+        i1 = dict(op="send", kind="ws", run="r1", beh="ok", variant="init_step")
+        i2 = dict(op="send", kind="ws", run="r2", beh="ok", variant="init_step")
+        i3 = dict(op="send", kind="ws", run="r3", beh="ok", variant="")
+        f = lambda r: dict(op="finish", run=r)
+        scen.append(dict(id="initpanic/serial/%s" % name, mode="server", cap=0, script=[i1, f("r1"), i2, f("r2"), i3, f("r3")] + tail))
+        scen.append(dict(id="initpanic/overlap/%s" % name, mode="server", cap=0, script=[i1, i2, i3, f("r2"), f("r1"), f("r3")] + tail))
     # a message that carries a run ID followed by messages whose envelope has no run_id key (nothing of the previous
     # message may show through), in both orders and for signals
     for va in ("no_run", "no_run_key", "no_step"):
